@@ -580,7 +580,7 @@ META = {
                         'until-condition', 'until-failed-event'],
     'bounds': {'quick': '15 kernel program shapes (<= 3 processes, <= 7 occurrences) x 3 of 10 split plans (run(until=1|2|3), run(until=process / '
                         'shared event), step() x m, in sequences of <= 3) + generator->port->wire->sink (2 packets) under 3 plans; initial_time '
-                        'symbolic; summaries of 4 jobs compared under 2 hash seeds',
+                        'symbolic; summaries of 4 jobs compared under 2 hash seeds; run(until=number) on a concrete binary-float grid with exact comparisons; an exception instance as the value of a successful until-event',
                'thorough': '39 shapes x 10 plans; 12 jobs x 4 hash seeds'},
     'assumptions': ['numeric stop instants are concrete (Environment.run calls float()); the program delays around them are symbolic',
                     'PYTHONHASHSEED is not a solver variable: whole-bound symbolic summaries are compared for a few seeds (sampled axis)'],
